@@ -238,7 +238,7 @@ func checkC02(w *core.W) {
 								if side == 1 {
 									pos = "c op a"
 								}
-								w.Fail("wrong", sig, "twins (" + a.Prog + ") and (" + b.Prog + ") differ under " + pos + " with op " + op + ", c = (" + c.Prog + ")", short(ka)+" vs "+short(kb))
+								w.Fail("wrong", sig, "twins ("+a.Prog+") and ("+b.Prog+") differ under "+pos+" with op "+op+", c = ("+c.Prog+")", short(ka)+" vs "+short(kb))
 							}
 						}
 					}
@@ -273,6 +273,6 @@ func short(s string) string {
 
 var C02 = core.Check{
 	ID: "C02", Level: "model_checking", Fn: checkC02, Rounds: func(string) int { return 2 },
-	Rule: "explicit-state search over reachable representations (round 0: generation 0 = every construction path of every set of <=2 members over the member alphabet, sugar literals, tuples built by +> / :> and sets of them; generation 1 = results of | & &~ ~~ ++ with without where => offset on them); round 1: every ordered pair of states is compared (a = b, a != b, {a,b} count, b <: {a}) against equality of denotations, and every pair of twins (equal denotation, different representation) must hash, print and select a dict entry identically and give denotation-equal results under 11 binary operators on either side against every third operand with <=1 member; non-trivial = twin pair (pair tests) / every substitution test",
+	Rule:   "explicit-state search over reachable representations (round 0: generation 0 = every construction path of every set of <=2 members over the member alphabet, sugar literals, tuples built by +> / :> and sets of them; generation 1 = results of | & &~ ~~ ++ with without where => offset on them); round 1: every ordered pair of states is compared (a = b, a != b, {a,b} count, b <: {a}) against equality of denotations, and every pair of twins (equal denotation, different representation) must hash, print and select a dict entry identically and give denotation-equal results under 11 binary operators on either side against every third operand with <=1 member; non-trivial = twin pair (pair tests) / every substitution test",
 	Assume: []string{"reference model: a value is a number, a tuple or a set; equality is equality of canonical encodings", "rel.VerifShape distinguishes representations (deduplication only)"},
 }
